@@ -818,8 +818,9 @@ def datetime_clauses(T, rng, rep, fails, n):
             fail("%s:canonical-text-not-fixed-point" % nm, "%s: canonical %r rewritten as %r" % (nm, c[1], c2), type=nm, text=c[1])
 
     dtc, tmc = T.DateTime(), T.Time()
-    for _ in range(n):
-        off = rng.choice([0, 60, -60, 330, -210, 345, 840, -720, -15, -30, -45, -1, -59, 15, 30, 45, rng.randrange(-720, 841)])   # the zones the reader admits: -12:00..+14:00
+    ldtc, ltmc = T.ListElement(T.DateTime(required=True)), T.ListElement(T.Time())      # the repeated-element wrappers
+    for k in range(n):
+        off = rng.choice([0, 60, -60, 330, -210, -570, 345, 840, -720, -15, -30, -45, -1, -59, 15, 30, 45, rng.randrange(-720, 841)])   # the zones the reader admits: -12:00..+14:00
         name = rng.choice([None, None, "UTC", "EST", "CET"])
         tz = datetime.timezone(datetime.timedelta(minutes=off), name) if name else datetime.timezone(datetime.timedelta(minutes=off))
         usec = rng.choice([0, 499, 500, 501, 999499, 999500, 999999, rng.randrange(10 ** 6)])
@@ -828,6 +829,9 @@ def datetime_clauses(T, rng, rep, fails, n):
         v = datetime.datetime(y, rng.randrange(1, 13), rng.randrange(1, 29), hh, mi, ss, usec, tzinfo=tz)
         chain("DateTime", dtc, v, inst, False)
         chain("Time", tmc, v.timetz(), tod, True)
+        if k % 4 == 0:
+            chain("ListElement(DateTime)", ldtc, v, inst, False)
+            chain("ListElement(Time)", ltmc, v.timetz(), tod, True)
     # texts in the other accepted notations: read, written canonically, read again
     for _ in range(n // 2):
         y, mo, dd = rng.randrange(1000, 9999), rng.randrange(1, 13), rng.randrange(1, 29)
@@ -855,7 +859,17 @@ def datetime_clauses(T, rng, rep, fails, n):
                 rep.count((nm, op, None, req), nontrivial=False, kind="%s.%s:None" % (nm, op))
                 if (o[0] != "ok") != req or (o[0] == "ok" and o[1] is not None):
                     fail("%s.%s:None-passthrough" % (nm, op), "%s(required=%r).%s(None) -> %r" % (nm, req, op, o), type=nm)
-            for wv in ("20200101", 20200101, True, D("1"), naive if nm == "DateTime" else naive.time(), naive.date(), Other("list")):
+            nv = naive if nm == "DateTime" else naive.time()
+            o = call(T, conv, "convert", nv)                  # a naive value denotes no instant: refused on the way in as well
+            rep.count((nm, "convert", "naive", req), nontrivial=False, kind="%s.convert:naive" % nm)
+            if o[0] == "ok":
+                fail("%s.convert:naive-value-accepted" % nm, "%s.convert(%r) -> %r" % (nm, nv, o[1]), type=nm, value=repr(nv))
+            for lconv in (T.ListElement(conv),):
+                for op in ("convert", "unconvert"):
+                    o = call(T, lconv, op, None)
+                    if (o[0] != "ok") != req or (o[0] == "ok" and o[1] is not None):
+                        fail("ListElement.%s:not-delegating" % op, "ListElement(%s(required=%r)).%s(None) -> %r" % (nm, req, op, o), type=nm)
+            for wv in ("20200101", 20200101, True, D("1"), nv, naive.date(), Other("list")):
                 o = call(T, conv, "unconvert", wv)
                 rep.count((nm, "unconvert", repr(wv), req), nontrivial=False, kind="%s.unconvert:wrong-type" % nm)
                 if o[0] == "ok":
